@@ -71,7 +71,7 @@ def main(chk):
         last = st["last"][0]
         chain = st["chain"]
         t = st["prev"]["t"]
-        ev = run_case(chain[:-1], last["c"], t)
+        ev = run_case(chain[:-1], last["c"], st["t0"])
         if ev is None:
             chk.count("receiver_not_buildable")
             chk.drift += 1
